@@ -231,8 +231,12 @@ inline std::string to_integer_literal(
     const std::string_view value, const std::string_view type)
 {
     assert(!value.empty() && (type != "float") && (type != "double"));
+    (void)type;
 
-    if((type == "int64") && (value[0] == '-'))
+    // the parsed number is rendered again instead of echoing the schema text:
+    // `from_chars` accepts leading zeros ("010" is ten) but a C++ literal that
+    // starts with `0` is octal
+    if(value[0] == '-')
     {
         const auto v = string_to_number<std::int64_t>(value);
         assert(v);
@@ -244,22 +248,55 @@ inline std::string to_integer_literal(
             return fmt::format(
                 "{} {}", min_signed_literal, (*v - min_signed_literal));
         }
+
+        return fmt::format("{}", *v);
     }
-    else if(type == "uint64")
+
+    const auto v = string_to_number<std::uint64_t>(value);
+    assert(v);
+    static constexpr auto max_signed_literal = 9223372036854775807;
+    if(*v > max_signed_literal)
     {
         // this part is not strictly required since type will be deduced
         // correctly but most compilers produce warning when literal
         // representing large number is used without `UL` prefix
-        const auto v = string_to_number<std::uint64_t>(value);
-        assert(v);
-        static constexpr auto max_signed_literal = 9223372036854775807;
-        if(*v > max_signed_literal)
+        return fmt::format("{}UL", *v);
+    }
+
+    return fmt::format("{}", *v);
+}
+
+// Converts schema text into the body of a C++ string/character literal which
+// denotes the same characters
+inline std::string escape_literal(const std::string_view str)
+{
+    std::string res;
+    res.reserve(str.size());
+
+    for(const auto ch : str)
+    {
+        const auto code = static_cast<unsigned char>(ch);
+        if((ch == '"') || (ch == '\\') || (ch == '\''))
         {
-            return fmt::format("{}UL", value);
+            res += '\\';
+            res += ch;
+        }
+        else if((ch == '?') && !res.empty() && (res.back() == '?'))
+        {
+            // avoid trigraphs
+            res += "\\?";
+        }
+        else if((code < 0x20) || (code == 0x7f))
+        {
+            res += fmt::format("\\{:03o}", code);
+        }
+        else
+        {
+            res += ch;
         }
     }
 
-    return std::string{value};
+    return res;
 }
 
 inline std::string get_compiled_header_top_comment()
@@ -327,7 +364,7 @@ inline std::string make_string_constant(
     }
 
     std::string value;
-    value.append("\"").append(const_value);
+    value.append("\"").append(escape_literal(const_value));
     // add padding if necessary
     const auto padding_length = type_length - const_value.size();
     for(std::size_t i = 0; i != padding_length; i++)
@@ -352,32 +389,13 @@ inline std::string make_char_constant(
             constant_value, type_length, location);
     }
 
-    return fmt::format("'{}'", constant_value);
-}
-
-// Removes redundant leading zeros (after the optional sign), otherwise C++
-// treats a literal like `010` as an octal one
-inline std::string strip_leading_zeros(const std::string_view value)
-{
-    const auto has_sign =
-        !value.empty() && ((value[0] == '-') || (value[0] == '+'));
-    std::size_t first = has_sign ? 1 : 0;
-    while((first + 1 < value.size()) && (value[first] == '0')
-          && std::isdigit(static_cast<unsigned char>(value[first + 1])))
-    {
-        first++;
-    }
-
-    std::string res{value.substr(0, has_sign ? 1 : 0)};
-    res += value.substr(first);
-    return res;
+    return fmt::format("'{}'", escape_literal(constant_value));
 }
 
 inline std::string numeric_literal_to_value(
-    const std::string_view raw_value, const std::string_view type)
+    const std::string_view value, const std::string_view type)
 {
-    assert(!raw_value.empty());
-    const auto value = strip_leading_zeros(raw_value);
+    assert(!value.empty());
 
     if((type == "float") || (type == "double"))
     {
@@ -392,6 +410,14 @@ inline std::string numeric_literal_to_value(
         else if(value == "-INF")
         {
             return fmt::format("-::std::numeric_limits<{}>::infinity()", type);
+        }
+
+        if(value.find_first_of(".eE") == std::string_view::npos)
+        {
+            // make it a floating-point literal: an integer one would be octal
+            // with a leading zero and a narrowing initializer when it has no
+            // exact representation
+            return fmt::format("{}.0", value);
         }
 
         return std::string{value};
